@@ -50,10 +50,13 @@ VARIABLES
   votes,    \* number of termination votes cast
   stopped,  \* RootsimStop was called
   exited,   \* thr -> left the main loop
-  hand      \* thr -> message extracted and not yet executed/released (0: none)
+  hand,     \* thr -> message extracted and not yet executed/released (0: none)
+  voted,    \* thr -> the thread has cast its termination vote
+  maxDecl,  \* thr -> largest timestamp at which one of its LPs ever declared its predicate true
+  mustVote  \* thr -> the GVT just handed over obliges the thread to vote now
 
 vars == <<msg, hist, base, ckpt, owner, rb, cpos, cheld, termT, gvtSeen, gvtCnt, gvtVals, finiLp, finiQ,
-          votes, stopped, exited, hand>>
+          votes, stopped, exited, hand, voted, maxDecl, mustVote>>
 
 NoRb == [on |-> FALSE, lp |-> -1, past |-> 0, restored |-> FALSE, touched |-> {}]
 
@@ -76,6 +79,9 @@ Init ==
   /\ stopped = FALSE
   /\ exited = [r \in Threads |-> FALSE]
   /\ hand = [r \in Threads |-> 0]
+  /\ voted = [r \in Threads |-> FALSE]
+  /\ maxDecl = [r \in Threads |-> 0]
+  /\ mustVote = [r \in Threads |-> FALSE]
 
 ----------------------------------------------------------------------------
 (* helpers *)
@@ -108,7 +114,7 @@ Failed(cs) == SelectSeq(cs, LAMBDA c : ~c[1])
 Alloc(r, m) ==
   /\ msg' = Put(msg, m, [lp |-> -1, t |-> -1, ty |-> -1, pid |-> -1, flags |-> 0, inq |-> "new", q |-> r, src |-> -1])
   /\ UNCHANGED <<hist, base, ckpt, owner, rb, cpos, cheld, termT, gvtSeen, gvtCnt, gvtVals, finiLp, finiQ, votes,
-                 stopped, exited, hand>>
+                 stopped, exited, hand, voted, maxDecl, mustVote>>
 AllocChecks(r, m) ==
   << <<~Live(m), "C06", "buffer handed out while still live">>,
      \* events re-executed silently must not emit events (ScheduleNewEvent returns before packing)
@@ -119,7 +125,7 @@ LpInit(r, p, m, g, pred) ==
   /\ msg' = [msg EXCEPT ![m] = [@ EXCEPT !.lp = p, !.t = 0, !.ty = 65534, !.flags = 2, !.inq = "none"]]
   /\ hist' = [hist EXCEPT ![p] = Append(@, [k |-> "e", m |-> m, t |-> 0, ty |-> 65534, pid |-> -1, g |-> g, pred |-> pred])]
   /\ owner' = [owner EXCEPT ![p] = r]
-  /\ UNCHANGED <<base, ckpt, rb, cpos, cheld, termT, gvtSeen, gvtCnt, gvtVals, finiLp, finiQ, votes, stopped, exited, hand>>
+  /\ UNCHANGED <<base, ckpt, rb, cpos, cheld, termT, gvtSeen, gvtCnt, gvtVals, finiLp, finiQ, votes, stopped, exited, hand, voted, maxDecl, mustVote>>
 LpInitChecks(r, p, m) ==
   << <<Live(m) /\ msg[m].inq = "new", "C06", "LP_INIT uses a buffer that is not fresh">>,
      <<owner[p] = -1, "C14", "LP initialised twice">> >>
@@ -131,7 +137,7 @@ Push(r, m, q, c) ==
                                 THEN [@ EXCEPT !.lp = c.lp, !.t = c.t, !.ty = c.ty, !.pid = c.pid, !.inq = "inbox", !.q = q]
                                 ELSE [@ EXCEPT !.inq = "inbox", !.q = q]]
   /\ UNCHANGED <<hist, base, ckpt, owner, rb, cpos, cheld, termT, gvtSeen, gvtCnt, gvtVals, finiLp, finiQ, votes,
-                 stopped, exited, hand>>
+                 stopped, exited, hand, voted, maxDecl, mustVote>>
 PushChecks(r, m, q, c) ==
   << <<Live(m), "C06", "freed buffer inserted into a queue">>,
      <<Live(m) => msg[m].inq \in {"new", "none"}, "C06", "message inserted while already queued">>,
@@ -146,7 +152,7 @@ Send(r, p, m) ==
   /\ hist' = [hist EXCEPT ![p] = Append(@, [k |-> "s", m |-> m, t |-> msg[m].t, ty |-> msg[m].ty, pid |-> msg[m].pid, g |-> NoGhost, pred |-> FALSE])]
   /\ msg' = [msg EXCEPT ![m].src = p]
   /\ UNCHANGED <<base, ckpt, owner, rb, cpos, cheld, termT, gvtSeen, gvtCnt, gvtVals, finiLp, finiQ, votes, stopped,
-                 exited, hand>>
+                 exited, hand, voted, maxDecl, mustVote>>
 SendChecks(r, p, m) ==
   << <<Live(m), "C06", "sent message is not live">>,
      <<owner[p] \in {-1, r}, "C14", "LP runs on a thread that does not own it">> >>
@@ -155,7 +161,7 @@ SendChecks(r, p, m) ==
 Drain(r, n) ==
   /\ msg' = [m \in DOMAIN msg |-> IF m \in InboxOf(r) THEN [msg[m] EXCEPT !.inq = "heap"] ELSE msg[m]]
   /\ UNCHANGED <<hist, base, ckpt, owner, rb, cpos, cheld, termT, gvtSeen, gvtCnt, gvtVals, finiLp, finiQ, votes,
-                 stopped, exited, hand>>
+                 stopped, exited, hand, voted, maxDecl, mustVote>>
 DrainChecks(r, n) ==
   << <<Cardinality(InboxOf(r)) = n, "C15", "buffer swap lost or duplicated an inserted event">> >>
 
@@ -164,7 +170,7 @@ Extract(r, m) ==
   /\ msg' = [msg EXCEPT ![m].inq = "none"]
   /\ hand' = [hand EXCEPT ![r] = m]
   /\ UNCHANGED <<hist, base, ckpt, owner, rb, cpos, cheld, termT, gvtSeen, gvtCnt, gvtVals, finiLp, finiQ, votes,
-                 stopped, exited>>
+                 stopped, exited, voted, maxDecl, mustVote>>
 ExtractChecks(r, m) ==
   << <<Live(m), "C06", "freed buffer extracted">>,
      <<Live(m) => m \in HeapOf(r), "C15", "extracted an event that was not transferred to this thread">>,
@@ -177,7 +183,7 @@ ExtractChecks(r, m) ==
 Flag(r, m, old) ==
   /\ msg' = [msg EXCEPT ![m].flags = old + 2]
   /\ UNCHANGED <<hist, base, ckpt, owner, rb, cpos, cheld, termT, gvtSeen, gvtCnt, gvtVals, finiLp, finiQ, votes,
-                 stopped, exited, hand>>
+                 stopped, exited, hand, voted, maxDecl, mustVote>>
 FlagChecks(r, m, old) ==
   << <<Live(m), "C06", "flag of a freed buffer updated">>,
      <<Live(m) => m \in HandOf(r), "C06", "flag update on a message not in hand">>,
@@ -191,7 +197,7 @@ FlagChecks(r, m, old) ==
 RbBegin(r, p, past) ==
   /\ rb' = [rb EXCEPT ![r] = [on |-> TRUE, lp |-> p, past |-> past, restored |-> FALSE, touched |-> {}]]
   /\ UNCHANGED <<msg, hist, base, ckpt, owner, cpos, cheld, termT, gvtSeen, gvtCnt, gvtVals, finiLp, finiQ, votes,
-                 stopped, exited, hand>>
+                 stopped, exited, hand, voted, maxDecl, mustVote>>
 RbBeginChecks(r, p, past) ==
   << <<owner[p] = r, "C14", "rollback of an LP by a thread that does not own it">>,
      <<past <= Len(hist[p]), "C05", "rollback target beyond the history">>,
@@ -205,7 +211,7 @@ AntiLocal(r, m, old) ==
   /\ msg' = [msg EXCEPT ![m].flags = old + 1]
   /\ rb' = [rb EXCEPT ![r].touched = @ \cup {m}]
   /\ UNCHANGED <<hist, base, ckpt, owner, cpos, cheld, termT, gvtSeen, gvtCnt, gvtVals, finiLp, finiQ, votes,
-                 stopped, exited, hand>>
+                 stopped, exited, hand, voted, maxDecl, mustVote>>
 AntiLocalChecks(r, m, old) ==
   << <<Live(m), "C06", "anti-message for a buffer that was already released">>,
      <<rb[r].on /\ ~rb[r].restored, "C06", "cancellation outside a rollback">>,
@@ -219,7 +225,7 @@ Undo(r, m, old) ==
   /\ msg' = [msg EXCEPT ![m].flags = old - 2]
   /\ rb' = [rb EXCEPT ![r].touched = @ \cup {m}]
   /\ UNCHANGED <<hist, base, ckpt, owner, cpos, cheld, termT, gvtSeen, gvtCnt, gvtVals, finiLp, finiQ, votes,
-                 stopped, exited, hand>>
+                 stopped, exited, hand, voted, maxDecl, mustVote>>
 UndoChecks(r, m, old) ==
   << <<Live(m), "C06", "undone event buffer already released">>,
      <<rb[r].on /\ ~rb[r].restored, "C06", "event undone outside a rollback">>,
@@ -233,7 +239,7 @@ Restore(r, p, last, past) ==
   /\ hist' = [hist EXCEPT ![p] = SubSeq(@, 1, past)]
   /\ ckpt' = [ckpt EXCEPT ![p] = SelectSeq(@, LAMBDA c : c.ref <= last)]
   /\ rb' = [rb EXCEPT ![r].restored = TRUE]
-  /\ UNCHANGED <<msg, base, owner, cpos, cheld, termT, gvtSeen, gvtCnt, gvtVals, finiLp, finiQ, votes, stopped, exited, hand>>
+  /\ UNCHANGED <<msg, base, owner, cpos, cheld, termT, gvtSeen, gvtCnt, gvtVals, finiLp, finiQ, votes, stopped, exited, hand, voted, maxDecl, mustVote>>
 \* every undone entry must have been visited: sent messages cancelled, events unmarked
 RestoreChecks(r, p, last, past) ==
   << <<rb[r].on /\ rb[r].lp = p /\ rb[r].past = past, "C05", "restore does not belong to the rollback in progress">>,
@@ -250,7 +256,7 @@ RestoreChecks(r, p, last, past) ==
 RbEnd(r, p, g) ==
   /\ rb' = [rb EXCEPT ![r] = NoRb]
   /\ UNCHANGED <<msg, hist, base, ckpt, owner, cpos, cheld, termT, gvtSeen, gvtCnt, gvtVals, finiLp, finiQ, votes,
-                 stopped, exited, hand>>
+                 stopped, exited, hand, voted, maxDecl, mustVote>>
 RbEndChecks(r, p, g, size, calc) ==
   << <<rb[r].on /\ rb[r].restored /\ rb[r].lp = p, "C05", "rollback end without restore">>,
      <<g = GhostAt(p, Len(hist[p])), "C05", "state after rollback differs from the state after the last valid event">>,
@@ -261,7 +267,7 @@ Exec(r, p, m, g, pred) ==
   /\ hist' = [hist EXCEPT ![p] = Append(@, [k |-> "e", m |-> m, t |-> msg[m].t, ty |-> msg[m].ty, pid |-> msg[m].pid, g |-> g, pred |-> pred])]
   /\ hand' = [hand EXCEPT ![r] = 0]
   /\ UNCHANGED <<msg, base, ckpt, owner, rb, cpos, cheld, termT, gvtSeen, gvtCnt, gvtVals, finiLp, finiQ, votes, stopped,
-                 exited>>
+                 exited, voted, maxDecl, mustVote>>
 LastEvT(p) == IF EvIdx(p, Len(hist[p])) = {} THEN -1 ELSE hist[p][Max(EvIdx(p, Len(hist[p])))].t
 ExecChecks(r, p, m, size, calc) ==
   << <<Live(m), "C06", "executed a freed event">>,
@@ -276,7 +282,7 @@ ExecChecks(r, p, m, size, calc) ==
 Ckpt(r, p, ref, size) ==
   /\ ckpt' = [ckpt EXCEPT ![p] = Append(@, [ref |-> ref, size |-> size])]
   /\ UNCHANGED <<msg, hist, base, owner, rb, cpos, cheld, termT, gvtSeen, gvtCnt, gvtVals, finiLp, finiQ, votes, stopped,
-                 exited, hand>>
+                 exited, hand, voted, maxDecl, mustVote>>
 CkptChecks(r, p, ref, size) ==
   << <<ref = Len(hist[p]), "C13", "checkpoint reference is not the current history length">>,
      <<ckpt[p] # <<>> => ckpt[p][Len(ckpt[p])].ref < ref, "C13", "checkpoint references do not increase">> >>
@@ -290,7 +296,7 @@ Fossil(r, p, g, n) ==
                                    [i \in 1..Len(keep) |-> [ref |-> keep[i].ref - n, size |-> keep[i].size]]]
   /\ cpos' = [cpos EXCEPT ![p] = @ + Len(CommittedOf(p, n))]
   /\ cheld' = [cheld EXCEPT ![p] = @ \/ \E i \in 1..n : hist[p][i].k = "e" /\ hist[p][i].pred]
-  /\ UNCHANGED <<msg, owner, rb, termT, gvtSeen, gvtCnt, gvtVals, finiLp, finiQ, votes, stopped, exited, hand>>
+  /\ UNCHANGED <<msg, owner, rb, termT, gvtSeen, gvtCnt, gvtVals, finiLp, finiQ, votes, stopped, exited, hand, voted, maxDecl, mustVote>>
 FossilChecks(r, p, g, n) ==
   << <<owner[p] = r, "C14", "fossil collection by a thread that does not own the LP">>,
      <<n <= Len(hist[p]), "C13", "released more than the history holds">>,
@@ -309,17 +315,24 @@ Free(r, m) ==
   /\ msg' = Drop(msg, m)
   /\ hand' = [hand EXCEPT ![r] = IF @ = m THEN 0 ELSE @]
   /\ UNCHANGED <<hist, base, ckpt, owner, rb, cpos, cheld, termT, gvtSeen, gvtCnt, gvtVals, finiLp, finiQ, votes,
-                 stopped, exited>>
+                 stopped, exited, voted, maxDecl, mustVote>>
 FreeChecks(r, m) ==
   << <<Live(m), "C06", "message buffer released twice">>,
      <<Live(m) => ~Reachable(r, m), "C06", "message buffer released while still reachable">> >>
+
+\* the predicate of LP p held on a state that is committed with respect to GVT g
+HeldCommitted(p, g) ==
+  cheld[p] \/ \E i \in 1..Len(hist[p]) : hist[p][i].k = "e" /\ hist[p][i].pred /\ hist[p][i].t < g
 
 (* a GVT value is handed to the consumers of thread r (parallel.c:71) *)
 Gvt(r, g) ==
   /\ gvtSeen' = [gvtSeen EXCEPT ![r] = g]
   /\ gvtCnt' = [gvtCnt EXCEPT ![r] = @ + 1]
   /\ gvtVals' = IF gvtCnt[r] + 1 > Len(gvtVals) THEN Append(gvtVals, g) ELSE gvtVals
-  /\ UNCHANGED <<msg, hist, base, ckpt, owner, rb, cpos, cheld, termT, finiLp, finiQ, votes, stopped, exited, hand>>
+  \* C08: once every LP of the thread has its predicate true on a committed state, and no LP of the
+  \* thread ever declared at or above g, the thread has to vote at this GVT (termination_on_gvt)
+  /\ mustVote' = [mustVote EXCEPT ![r] = ~voted[r] /\ g > maxDecl[r] /\ \A p \in LpSet : owner[p] = r => HeldCommitted(p, g)]
+  /\ UNCHANGED <<msg, hist, base, ckpt, owner, rb, cpos, cheld, termT, finiLp, finiQ, votes, stopped, exited, hand, voted, maxDecl>>
 PendingMin == IF {m \in Pending : msg[m].t >= 0} = {} THEN Inf ELSE Min({msg[m].t : m \in {x \in Pending : msg[x].t >= 0}})
 GvtChecks(r, g) ==
   << <<g >= gvtSeen[r], "C04", "GVT decreased">>,
@@ -331,37 +344,38 @@ GvtChecks(r, g) ==
 (* termination accounting (src/gvt/termination.c) *)
 TermLp(r, p, t, term) ==
   /\ termT' = [termT EXCEPT ![p] = IF term THEN t ELSE @]
+  /\ maxDecl' = [maxDecl EXCEPT ![r] = IF term /\ t > @ THEN t ELSE @]
   /\ UNCHANGED <<msg, hist, base, ckpt, owner, rb, cpos, cheld, gvtSeen, gvtCnt, gvtVals, finiLp, finiQ, votes, stopped,
-                 exited, hand>>
+                 exited, hand, voted, mustVote>>
 TermInit(r, p, term) ==
   /\ cheld' = [cheld EXCEPT ![p] = term]
   /\ termT' = [termT EXCEPT ![p] = IF term THEN 0 ELSE -1]
-  /\ UNCHANGED <<msg, hist, base, ckpt, owner, rb, cpos, gvtSeen, gvtCnt, gvtVals, finiLp, finiQ, votes, stopped, exited, hand>>
+  /\ UNCHANGED <<msg, hist, base, ckpt, owner, rb, cpos, gvtSeen, gvtCnt, gvtVals, finiLp, finiQ, votes, stopped, exited, hand, voted, maxDecl, mustVote>>
 TermUndo(r, p, keep) ==
   /\ termT' = [termT EXCEPT ![p] = IF keep THEN @ ELSE -1]
   /\ UNCHANGED <<msg, hist, base, ckpt, owner, rb, cpos, cheld, gvtSeen, gvtCnt, gvtVals, finiLp, finiQ, votes, stopped,
-                 exited, hand>>
+                 exited, hand, voted, maxDecl, mustVote>>
 
-\* the predicate of LP p held on a state that is committed with respect to GVT g
-HeldCommitted(p, g) ==
-  cheld[p] \/ \E i \in 1..Len(hist[p]) : hist[p][i].k = "e" /\ hist[p][i].pred /\ hist[p][i].t < g
 
 (* termination_on_gvt casts the vote of thread r with GVT g *)
 Vote(r, g) ==
   /\ votes' = votes + 1
+  /\ voted' = [voted EXCEPT ![r] = TRUE]
+  /\ mustVote' = [mustVote EXCEPT ![r] = FALSE]
   /\ UNCHANGED <<msg, hist, base, ckpt, owner, rb, cpos, cheld, termT, gvtSeen, gvtCnt, gvtVals, finiLp, finiQ, stopped,
-                 exited, hand>>
+                 exited, hand, maxDecl>>
 VoteChecks(r, g, termTime) ==
   << <<g >= termTime \/ \A p \in LpSet : owner[p] = r => HeldCommitted(p, g),
        "C07", "thread voted to terminate although an LP's predicate has not held on a committed state">> >>
 
 Stop ==
   /\ stopped' = TRUE
-  /\ UNCHANGED <<msg, hist, base, ckpt, owner, rb, cpos, cheld, termT, gvtSeen, gvtCnt, gvtVals, finiLp, finiQ, votes, exited, hand>>
+  /\ UNCHANGED <<msg, hist, base, ckpt, owner, rb, cpos, cheld, termT, gvtSeen, gvtCnt, gvtVals, finiLp, finiQ, votes, exited, hand, voted, maxDecl, mustVote>>
 
 LoopExit(r) ==
   /\ exited' = [exited EXCEPT ![r] = TRUE]
-  /\ UNCHANGED <<msg, hist, base, ckpt, owner, rb, cpos, cheld, termT, gvtSeen, gvtCnt, gvtVals, finiLp, finiQ, votes, stopped, hand>>
+  /\ UNCHANGED <<msg, hist, base, ckpt, owner, rb, cpos, cheld, termT, gvtSeen, gvtCnt, gvtVals, finiLp, finiQ, votes, stopped, hand, voted, maxDecl, mustVote>>
+NoPendingVote(r) == <<~mustVote[r], "C08", "every LP of the thread has its predicate true on a committed state but the thread did not vote to terminate">>
 LastGvt == IF gvtVals = <<>> THEN 0 ELSE gvtVals[Len(gvtVals)]
 LoopExitChecks(r, termTime) ==
   << <<stopped \/ LastGvt >= termTime \/ \A p \in LpSet : HeldCommitted(p, LastGvt),
@@ -370,14 +384,14 @@ LoopExitChecks(r, termTime) ==
 
 QueueFini(r) ==
   /\ finiQ' = [finiQ EXCEPT ![r] = TRUE]
-  /\ UNCHANGED <<msg, hist, base, ckpt, owner, rb, cpos, cheld, termT, gvtSeen, gvtCnt, gvtVals, finiLp, votes, stopped, exited, hand>>
+  /\ UNCHANGED <<msg, hist, base, ckpt, owner, rb, cpos, cheld, termT, gvtSeen, gvtCnt, gvtVals, finiLp, votes, stopped, exited, hand, voted, maxDecl, mustVote>>
 \* both flushing GVT rounds of gvt_msg_drain have transferred every inbox into the private heap
 QueueFiniChecks(r) ==
   << <<InboxOf(r) = {}, "C11", "inbox not empty at queue teardown (msg_queue_fini walks a freed list)">> >>
 
 LpFini(r, p) ==
   /\ finiLp' = [finiLp EXCEPT ![p] = TRUE]
-  /\ UNCHANGED <<msg, hist, base, ckpt, owner, rb, cpos, cheld, termT, gvtSeen, gvtCnt, gvtVals, finiQ, votes, stopped, exited, hand>>
+  /\ UNCHANGED <<msg, hist, base, ckpt, owner, rb, cpos, cheld, termT, gvtSeen, gvtCnt, gvtVals, finiQ, votes, stopped, exited, hand, voted, maxDecl, mustVote>>
 LpFiniChecks(r, p) ==
   << <<~finiLp[p], "C08", "LP_FINI invoked twice for an LP">>,
      <<owner[p] = r, "C14", "LP finalised by a thread that does not own it">>,
